@@ -429,6 +429,7 @@ func (e *Engine) initIntrinsics() {
 	in["log.SetPrefix"] = nop
 	in["log.SetOutput"] = nop
 	in["errors.Is"] = func(p *Path, fn *ssa.Function, args []Value) Value { return p.errorsIs(args[0].(*Iface), args[1].(*Iface)) }
+	in["os.Getenv"] = func(p *Path, fn *ssa.Function, args []Value) Value { return &Str{} }
 	in["os.Exit"] = func(p *Path, fn *ssa.Function, args []Value) Value {
 		c, _ := p.cint(args[0].(*Term))
 		p.exitEvent(c)
